@@ -171,7 +171,8 @@ pub fn generate(g: &mut Gen, thorough: bool) {
         }
         let comments = g.rng.chance(1, 2);
         let (noisy, canon) = noisy_layout(&mut g.rng, &steps, comments);
-        let cf = ctx_fields("default", &w).join("\t");
+        // (a third of them through Plain, whose translator of PROJ syntax must leave them alone)
+        let cf = ctx_fields(if g.rng.chance(1, 3) { "plain" } else { "default" }, &w).join("\t");
         let data = super::probe_data(2);
         // model correspondence on the tokenizer functions, for both renderings
         for t in [&canon, &noisy] {
